@@ -6,6 +6,6 @@ CONSTANTS
 INIT Init
 NEXT Next
 VIEW View
-ACTION_CONSTRAINT EmitSim
+ACTION_CONSTRAINT Emit
 INVARIANTS TypeOK
 CHECK_DEADLOCK FALSE
